@@ -21,7 +21,10 @@ func c07Build(seed int64, thorough bool) *c07Lists {
 	cc := []uint8{14, 3, 9, 0, 15}
 	a1 := PESUnit(0x100, 0xe0, pesPayload(1, 184*2-14-30, seed), 100, false)
 	a2n := 2
-	a2 := PESUnit(0x100, 0xe0, pesPayload(2, 184*a2n-14-3, seed), 200, false)
+	a2 := PESUnit(0x100, 0xe0, pesPayload(2, 184*a2n-14-3-20, seed), 200, false)
+	// first-packet adaptation fields with every variable-length part (their bytes are delivered with the unit)
+	a1.AF = &ref.AF{RAI: true, PCR: &ref.PCR{Base: 1234, Ext: 5}, HasPrivate: true, Private: []byte("tpd-A1")}
+	a2.AF = &ref.AF{HasPrivate: true, Private: []byte("tpd-A2-longer"), Ext: &ref.AFExt{LTW: true, LTWValid: true, LTWOffset: 9}}
 	b1n := 2
 	b1 := PESUnit(0x101, 0xc0, pesPayload(3, 184*b1n-14-9, seed), 300, true)
 	b2 := PESUnit(0x101, 0xc0, pesPayload(4, 60, seed), 400, true)
